@@ -79,7 +79,8 @@ def materialize(g: graph.Graph, paths: list[list[int]]) -> list[list[dict]]:
         t = []
         for n, i in enumerate(p):
             e = g.edges[i]
-            t.append({"from": e["from"], "op": e["op"]} if n == 0 else {"op": e["op"]})
+            t.append({"from": e["from"], "op": e["op"], "allowed": e.get("allowed", [])} if n == 0
+                     else {"op": e["op"], "allowed": e.get("allowed", [])})
         out.append(t)
     return out
 
